@@ -103,6 +103,18 @@ def cases(tier, seed):
     return out
 
 
+def retry_arpack(f, *a, **kw):
+    """ARPACK's start vector is not reachable through the package's functions: a break-down of the iteration is retried (C05 does the same)"""
+    from scipy.sparse.linalg import ArpackError
+    last = None
+    for attempt in range(3):
+        try:
+            return f(*a, **kw)
+        except ArpackError as e:
+            last = e
+    raise last
+
+
 def judge(K, M, vals, vecs, idx_active, fails, ctx, exact=None, sort=True, num=None, close=False):
     vals = np.asarray(vals)
     vecs = np.asarray(vecs)
@@ -160,7 +172,7 @@ def check_pair(case):
     fails = []
     ctx = dict(case=case)
     try:
-        vals, vecs = freq(K, M, silent=not case.get('loud'), sparse_solver=bool(case['sparse']), sort=bool(case['sort']), num_eigvalues=case['num'])
+        vals, vecs = retry_arpack(freq, K, M, silent=not case.get('loud'), sparse_solver=bool(case['sparse']), sort=bool(case['sort']), num_eigvalues=case['num'])
     except Exception as e:
         return dict(fails=[fail('freq raised', sig=None, case=case, error=repr(e)[:300])], nontrivial=1)
     if abs(K - Kc).max() != 0 or abs(M - Mc).max() != 0:
@@ -222,8 +234,8 @@ def check_struct(case):
     ex = np.sqrt(np.abs(eigh(Kd[np.ix_(act, act)], Md[np.ix_(act, act)], eigvals_only=True)))
     ctx = dict(case=case)
     try:
-        vals, vecs = freq(K, M, silent=True, sparse_solver=bool(case['sparse']), num_eigvalues=case['num'],
-                          reduced_dof=(st == 'plate_reduced' and not case['sparse']))
+        vals, vecs = retry_arpack(freq, K, M, silent=True, sparse_solver=bool(case['sparse']), num_eigvalues=case['num'],
+                                  reduced_dof=(st == 'plate_reduced' and not case['sparse']))
         if st != 'plate_reduced' or case['sparse']:
             judge(Kd, Md, vals, vecs, act, fails, dict(ctx, api='analysis.freq'), exact=ex, num=case['num'])
         else:
@@ -234,7 +246,7 @@ def check_struct(case):
             exr = np.sqrt(np.abs(eigh(Kd[np.ix_(actr, actr)], Md[np.ix_(actr, actr)], eigvals_only=True)))
             judge(Kb, Mb, vals, vecs, actr, fails, dict(ctx, api='analysis.freq reduced_dof'), exact=exr, num=case['num'])
         if panel is not None and st != 'plate_reduced' and case.get('mscale', 1.0) == 1.0:
-            panel.freq(silent=True, sparse_solver=bool(case['sparse']))
+            retry_arpack(panel.freq, silent=True, sparse_solver=bool(case['sparse']))
             judge(Kd, Md, panel.eigvals, panel.eigvecs, act, fails, dict(ctx, api='Panel.freq'), exact=ex, num=case['num'])
     except Exception as e:
         fails.append(fail('frequency analysis raised', sig=None, case=case, error=repr(e)[:300]))
@@ -287,8 +299,8 @@ def check_pfreq(case):
         raise AssertionError('harness: pre-load is not sub-critical')
     ex = np.sqrt(w2)
     try:
-        p.freq(atype=case['atype'], silent=not (case['num'] == 6 and case['geom'] == 'regular'), sparse_solver=bool(case['sparse']),
-               sort=bool(case['sort']), reduced_dof=bool(case['reduced']))
+        retry_arpack(p.freq, atype=case['atype'], silent=not (case['num'] == 6 and case['geom'] == 'regular'), sparse_solver=bool(case['sparse']),
+                     sort=bool(case['sort']), reduced_dof=bool(case['reduced']))
     except Exception as e:
         return dict(fails=[fail('Panel.freq raised', sig=None, case=case, error=repr(e)[:300])], nontrivial=1)
     vals, vecs = np.asarray(p.eigvals), np.asarray(p.eigvecs)
